@@ -55,19 +55,32 @@ fn json_of(p: &Proj) -> Result<String, String> {
 #[derive(Clone, Debug, Serialize, Deserialize)]
 pub enum Spec {
     /// shipped model file; `stripped`: same ids, shades removed and setbacks zeroed (an edited variant)
-    Shipped { name: String, stripped: bool },
+    Shipped {
+        name: String,
+        stripped: bool,
+        /// same ids, every daily schedule value halved (an edited use profile)
+        #[serde(default)]
+        halved: bool,
+    },
     Plan { plan: Box<Plan>, without_shades: bool },
 }
 
 fn spec_model(s: &Spec) -> Model {
     match s {
-        Spec::Shipped { name, stripped } => {
+        Spec::Shipped { name, stripped, halved } => {
             let txt = std::fs::read_to_string(format!("/repo/bemodel/tests/data/{}", name)).unwrap_or_default();
             let mut m = Model::from_json(&txt).expect("shipped model loads");
             if *stripped {
                 m.shades.clear();
                 for w in &mut m.windows {
                     w.geometry.setback = 0.0;
+                }
+            }
+            if *halved {
+                for d in &mut m.schedules.day {
+                    for v in &mut d.values {
+                        *v *= 0.5;
+                    }
                 }
             }
             m
@@ -310,7 +323,18 @@ fn check_locality(h: &CaseH, c: &LocalityCase) -> Verdict {
     };
     // #8: a further CONSTRUCTION (own name, own absorptance) over a LAYERS definition the project already uses
     let dynamic;
-    let block: &str = if c.extra as usize % (EXTRA_BLOCKS.len() + 1) == EXTRA_BLOCKS.len() {
+    let nblocks = EXTRA_BLOCKS.len() + 2;
+    let block: &str = if c.extra as usize % nblocks == EXTRA_BLOCKS.len() + 1 {
+        // #9: a daily schedule that takes the name of an existing weekly schedule (names are unique per kind only)
+        let week_name = text.lines().map(str::trim).filter(|l| l.starts_with('"') && l.ends_with("= WEEK-SCHEDULE-PD")).filter_map(|l| l[1..].find('"').map(|q| l[1..1 + q].to_string())).next();
+        match week_name {
+            Some(n) => {
+                dynamic = format!("\"{}\" = DAY-SCHEDULE-PD\n    TYPE = \"FRACTION\"\n    VALUES = ( 0.5)\n    ..\n", n);
+                &dynamic
+            }
+            None => return Verdict::Pass,
+        }
+    } else if c.extra as usize % nblocks == EXTRA_BLOCKS.len() {
         let layers_name = text.lines().map(str::trim).filter(|l| l.starts_with("LAYERS") && l.contains('=')).filter_map(|l| {
             let a = l.find('"')?;
             let b = l[a + 1..].find('"')? + a + 1;
@@ -324,7 +348,7 @@ fn check_locality(h: &CaseH, c: &LocalityCase) -> Verdict {
             None => return Verdict::Pass,
         }
     } else {
-        EXTRA_BLOCKS[c.extra as usize % (EXTRA_BLOCKS.len() + 1)]
+        EXTRA_BLOCKS[c.extra as usize % nblocks]
     };
     let t2 = match insert_block(&text, block) {
         Some(t) => t,
@@ -338,11 +362,11 @@ fn check_locality(h: &CaseH, c: &LocalityCase) -> Verdict {
     let (a, b) = (name_id_maps(&m1), name_id_maps(&m2));
     for (k, id) in &a {
         match b.get(k) {
-            Some(id2) => vensure!(id == id2, "C05:locality:id-changed", "adding the unrelated definition #{} ({}) changes the id of {} from {} to {}", c.extra % 9, block.lines().next().unwrap_or(""), k, id, id2),
+            Some(id2) => vensure!(id == id2, "C05:locality:id-changed", "adding the unrelated definition #{} ({}) changes the id of {} from {} to {}", c.extra % 10, block.lines().next().unwrap_or(""), k, id, id2),
             None => vfail!("C05:locality:element-lost", "adding an unrelated definition makes {} disappear", k),
         }
     }
-    h.class(&format!("extra/{}", c.extra % 9));
+    h.class(&format!("extra/{}", c.extra % 10));
     if a.len() > 20 {
         h.nontrivial(fp(&(a.len(), c.extra, fnv64(text.as_bytes()))));
     }
@@ -426,7 +450,7 @@ fn check_ind_seq(h: &CaseH, c: &IndSeq) -> Verdict {
     };
     vensure!(got.len() == c.specs.len(), "C05:protocol", "worker returned {} digests for {} models", got.len(), c.specs.len());
     let label = |s: &Spec| match s {
-        Spec::Shipped { name, stripped } => format!("{}{}", name, if *stripped { " (shades and setbacks removed)" } else { "" }),
+        Spec::Shipped { name, stripped, halved } => format!("{}{}{}", name, if *stripped { " (shades and setbacks removed)" } else { "" }, if *halved { " (daily schedule values halved)" } else { "" }),
         Spec::Plan { plan, without_shades } => format!("generated plan salt={} zone={}{}", plan.salt, plan.meta.zone, if *without_shades { " (shades and setbacks removed)" } else { "" }),
     };
     let mut zones = std::collections::HashSet::new();
@@ -451,7 +475,7 @@ fn check_ind_seq(h: &CaseH, c: &IndSeq) -> Verdict {
     }
     let same_ids_variant = c.specs.iter().enumerate().any(|(i, a)| {
         c.specs[..i].iter().any(|b| match (a, b) {
-            (Spec::Shipped { name: n1, stripped: s1 }, Spec::Shipped { name: n2, stripped: s2 }) => n1 == n2 && s1 != s2,
+            (Spec::Shipped { name: n1, stripped: s1, halved: h1 }, Spec::Shipped { name: n2, stripped: s2, halved: h2 }) => n1 == n2 && (s1 != s2 || h1 != h2),
             (Spec::Plan { plan: p1, without_shades: s1 }, Spec::Plan { plan: p2, without_shades: s2 }) => p1.salt == p2.salt && s1 != s2,
             _ => false,
         })
@@ -472,7 +496,7 @@ fn ind_seq() -> BoxedStrategy<IndSeq> {
     let names = shipped_model_names();
     let n = names.len();
     let spec = prop_oneof![
-        3 => (0..n, any::<bool>()).prop_map(move |(i, stripped)| Spec::Shipped { name: names[i].clone(), stripped }),
+        3 => (0..n, any::<bool>(), prop_oneof![3 => Just(false), 1 => Just(true)]).prop_map(move |(i, stripped, halved)| Spec::Shipped { name: names[i].clone(), stripped, halved }),
         2 => (model::plan(Params { open: false, max_spaces: 2, uses: false, ..Params::default() }), any::<bool>()).prop_map(|(p, w)| Spec::Plan { plan: Box::new(p), without_shades: w }),
     ];
     (proptest::collection::vec(spec, 2..=6), any::<bool>(), any::<bool>())
@@ -480,7 +504,13 @@ fn ind_seq() -> BoxedStrategy<IndSeq> {
             // an edited variant of the first model (same ids) later in the history: what an editor session does
             if dup {
                 let v = match &specs[0] {
-                    Spec::Shipped { name, stripped } => Spec::Shipped { name: name.clone(), stripped: !stripped },
+                    Spec::Shipped { name, stripped, halved } => {
+                        if name.len() % 2 == 0 {
+                            Spec::Shipped { name: name.clone(), stripped: !stripped, halved: *halved }
+                        } else {
+                            Spec::Shipped { name: name.clone(), stripped: *stripped, halved: !halved }
+                        }
+                    }
                     Spec::Plan { plan, without_shades } => Spec::Plan { plan: plan.clone(), without_shades: !without_shades },
                 };
                 specs.push(v);
@@ -492,7 +522,7 @@ fn ind_seq() -> BoxedStrategy<IndSeq> {
 
 pub fn run(args: &Args) -> ! {
     let ctx = Ctx::new("C05", "exploration", args);
-    ctx.rule("conversion: shipped .ctehexml projects (plain, and exported with their result files as --use-extra does) and generated buildings: 3 repeats in one process; histories of 2-6 conversions in ONE fresh process in a generated order and the same on simultaneous threads (barrier-released), each compared byte-wise (digest + length) with the project converted alone in a fresh process; id locality: each project with one unrelated definition added (material, layers, glass, frame, day/week schedule, shade, bridge, or a further construction with its own name and absorptance over a layers definition the project already uses): name -> id maps before are a sub-map of those after; the 6 shipped (project, reference model) pairs of the Makefile, reference normalised through the current serialiser. indicators: histories of 2-7 computations (shipped models, their variants with shades/setbacks removed but identical ids, generated models over all zones) sequentially in one fresh process and on simultaneous threads, each result compared with the model computed alone in a fresh process (per-orientation detail compared as a map). Non-trivial: history with >= 2 different projects / >= 2 climate zones.");
+    ctx.rule("conversion: shipped .ctehexml projects (plain, and exported with their result files as --use-extra does) and generated buildings: 3 repeats in one process; histories of 2-6 conversions in ONE fresh process in a generated order and the same on simultaneous threads (barrier-released), each compared byte-wise (digest + length) with the project converted alone in a fresh process; id locality: each project with one unrelated definition added (material, layers, glass, frame, day/week schedule, shade, bridge, a further construction with its own name and absorptance over a layers definition the project already uses, or a daily schedule named like an existing weekly one): name -> id maps before are a sub-map of those after; the 6 shipped (project, reference model) pairs of the Makefile, reference normalised through the current serialiser. indicators: histories of 2-7 computations (shipped models, their variants with shades/setbacks removed or every daily schedule value halved but identical ids, generated models over all zones) sequentially in one fresh process and on simultaneous threads, each result compared with the model computed alone in a fresh process (per-orientation detail compared as a map). Non-trivial: history with >= 2 different projects / >= 2 climate zones.");
     ctx.assume("a fresh process = a new worker process of the harness binary; thread interleavings are sampled (start order only)");
     ctx.replay_regressions(replay_one);
     let mut real: Vec<Proj> = real_projects().into_iter().map(Proj::File).collect();
@@ -523,7 +553,7 @@ pub fn run(args: &Args) -> ! {
     let mut loc = vec![];
     for (i, p) in plain.iter().enumerate() {
         let _ = i;
-        for e in 0..9u8 {
+        for e in 0..10u8 {
             loc.push(LocalityCase { proj: p.clone(), extra: e });
         }
     }
